@@ -27,18 +27,10 @@ structure UpdateFront (cfg : ZoneCfg) (front : Bytes) (hd : Hdr) : Prop where
     (z = none ∨ z = some 0)
 
 theorem UpdateFront.walkable {cfg : ZoneCfg} {front : Bytes} {hd : Hdr}
-    (U : UpdateFront cfg front hd) (hlen : front.length ≤ 65535) : Walkable front hd := by
+    (U : UpdateFront cfg front hd) : Walkable front hd := by
   obtain ⟨qn, qc, pos, p1, p2, z, hq, _, h1, h2, h3, _⟩ := U.body
   have hop : (hd.opcode == 5) = true := by simp [U.op]
-  refine ⟨U.hdr, U.ar, ?_, pos, p2, none, none, z, ?_, ?_, ?_⟩
-  · have l1 := readRecords_len _ _ _ _ _ _ _ _ _ _ h1
-    have l2 := readRecords_len _ _ _ _ _ _ _ _ _ _ h2
-    have l3 := readRecords_len _ _ _ _ _ _ _ _ _ _ h3
-    rcases l2.2 with a | a
-    · rcases l1.2 with b | b
-      · omega
-      · omega
-    · omega
+  refine ⟨U.hdr, U.ar, pos, p2, none, none, z, ?_, ?_, ?_⟩
   · simp only [U.qd, skipQueries, hq]
   · rw [hop, readRecords_append, h1]; exact h2
   · rw [hop]; exact h3
@@ -47,25 +39,24 @@ theorem UpdateFront.walkable {cfg : ZoneCfg} {front : Bytes} {hd : Hdr}
 **A correctly signed, timely update is applied.**  The request is `front` followed by the TSIG
 RR built from (`n`, `d`); updates are enabled; `n` is (up to case) the name of the first
 configured key `sg` with that name, `d` names `sg`'s algorithm, carries a full-length MAC that
-`sg`'s oracle accepts for the to-be-signed bytes, and `time − fudge ≤ now < time + fudge`
-(with `fudge ≤ time`, else the real code panics: `C13.TimeLtFudge`).  Then the server hands the
+`sg`'s oracle accepts for the to-be-signed bytes, and `time ∸ fudge ≤ now < time + fudge`.  Then
+the server hands the
 update section to RFC 2136 processing and MACs its reply with the same key, error 0.
 -/
 theorem signed_update_applies {cfg : ZoneCfg} {front : Bytes} {hd : Hdr}
-    (U : UpdateFront cfg front hd) (hlen : front.length ≤ 65535)
+    (U : UpdateFront cfg front hd)
     (sg : Signer) (n : Name) (d : TsigData) (E : Emittable n d) (now : Nat)
     (hau : cfg.allowUpdate = true)
     (hfind : cfg.signers.find? (fun s => Name.eq s.name { n with fqdn := true }) = some sg)
     (hname : Name.eq { n with fqdn := true } sg.name = true)
     (halg : algIs d.algName sg.alg = true)
     (hfull : outLen sg.alg ≤ d.mac.length)
-    (hmac : sg.macOK (emitHdr { hd with id := d.oid, ar := hd.ar - 1 } ++ front.drop 12 ++
+    (hmac : sg.macOK (hdrDigest front d.oid (hd.ar - 1) ++ front.drop 12 ++
         tsigVars n d) d.mac = true)
-    (htf : d.fudge ≤ d.time)
     (hwin : d.time - d.fudge ≤ now ∧ now < d.time + d.fudge) :
     ∃ dec, serve cfg (front ++ tsigRRBytes n d) now true = .ok (some dec) ∧
       dec.kind = .update ∧ dec.effect = true ∧ dec.rcode = 0 := by
-  have W := U.walkable hlen
+  have W := U.walkable
   obtain ⟨qn, qc, pos, p1, p2, z, hq, hz, h1, h2, h3, hed⟩ := U.body
   have hop : (hd.opcode == 5) = true := by simp [U.op]
   -- Request::from_bytes
@@ -86,7 +77,7 @@ theorem signed_update_applies {cfg : ZoneCfg} {front : Bytes} {hd : Hdr}
     rw [readRecords_tsigRR front n d E _ (tsigRdata_ne d) z]
   -- verify_message_byte
   have hv := signed_message_accepted W sg n d E none true hname halg hfull
-    (by simpa [prevPart] using hmac) htf
+    (by simpa [prevPart] using hmac)
   unfold serve
   rw [hparse]
   simp only
